@@ -164,8 +164,14 @@ fn impl_db_key(f: &syn::Field) -> Option<proc_macro2::TokenStream> {
     {
         if is_flatten_type(f) {
             let ty = &f.ty;
+            // An empty key list means "select all values" (the flattened type has
+            // optional fields), in which case the enclosing type must select all too.
             return Some(quote! {
-                keys.extend(<#ty as ::agdb::DbType>::db_keys());
+                let nested_keys = <#ty as ::agdb::DbType>::db_keys();
+                if nested_keys.is_empty() {
+                    return ::std::vec::Vec::new();
+                }
+                keys.extend(nested_keys);
             });
         }
 
